@@ -49,24 +49,31 @@ pub struct Spec {
     /// configuration: a tracing subscriber that wants every level is installed (diagnostics on)
     #[serde(default)]
     pub diag: bool,
+    /// configuration: the process's local time zone (POSIX TZ string) while the run executes; None = UTC
+    #[serde(default)]
+    pub tz: Option<String>,
+    /// path "interleaved": pipelines whose publish_mt converts in place (source field == target field)
+    #[serde(default)]
+    pub in_place: Vec<usize>,
 }
 
 pub struct C15;
 
 const TASKS: [&str; 4] = ["generate_mt", "publish_mt", "validate_mt", "parse_mt"];
 
-fn task_config(t: usize) -> FunctionConfig {
+fn task_config(t: usize, in_place: bool) -> FunctionConfig {
+    let (j, m) = if in_place { ("document", "document") } else { ("sample_json", "sample_mt") };
     let input = match t {
-        0 => json!({"target": "sample_json"}),
-        1 => json!({"source": "sample_json", "target": "sample_mt"}),
-        2 => json!({"source": "sample_mt", "target": "validation_result"}),
-        _ => json!({"source": "sample_mt", "target": "mt_json"}),
+        0 => json!({"target": j}),
+        1 => json!({"source": j, "target": m}),
+        2 => json!({"source": m, "target": "validation_result"}),
+        _ => json!({"source": m, "target": "mt_json"}),
     };
     FunctionConfig::Custom { name: TASKS[t].into(), input }
 }
 
-fn run_task(t: usize, msg: &mut Message) -> Result<(), String> {
-    let cfg = task_config(t);
+fn run_task(t: usize, msg: &mut Message, in_place: bool) -> Result<(), String> {
+    let cfg = task_config(t, in_place);
     let dl = Arc::new(datalogic_rs::DataLogic::new());
     let r = match t {
         0 => block_on(swift_mt_message::plugin::Generate.execute(msg, &cfg, dl)),
@@ -99,12 +106,13 @@ fn run_interleaved(scs: &[scen::Scenario], spec: &Spec, ctx: &Arc<seam::RunCtx>,
         cmd_tx.push(tx);
         resp_rx.push(rrx);
         let diag = spec.diag;
+        let in_place_c: Vec<usize> = spec.in_place.iter().map(|x| x % scs.len()).collect();
         handles.push(std::thread::spawn(move || {
             let _a = seam::attach(&ctx_c);
             while let Ok(Some((p, t))) = rx.recv() {
                 let r = std::panic::catch_unwind(std::panic::AssertUnwindSafe(|| {
                     let mut m = msgs_c[p].lock().unwrap_or_else(|e| e.into_inner());
-                    with_diag(diag, || run_task(t, &mut m))
+                    with_diag(diag, || run_task(t, &mut m, in_place_c.contains(&p)))
                 }))
                 .unwrap_or_else(|p| Err(format!("PANIC {}", p.downcast_ref::<String>().cloned().or(p.downcast_ref::<&str>().map(|s| s.to_string())).unwrap_or_default())));
                 if rtx.send(r).is_err() {
@@ -117,6 +125,8 @@ fn run_interleaved(scs: &[scen::Scenario], spec: &Spec, ctx: &Arc<seam::RunCtx>,
     let mut done = vec![[false; 4]; n];
     let mut failed: Vec<Option<(usize, String)>> = vec![None; n];
     let poisoned: Option<usize> = spec.poison.map(|(p, _)| p % n).filter(|_| n > 1);
+    let in_place: Vec<bool> = (0..n).map(|p| spec.in_place.iter().any(|x| x % n == p)).collect();
+    let mut saved_generated: Vec<Value> = vec![Value::Null; n];
     let mut passes_left: Vec<u8> = (0..n).map(|p| if spec.second_pass.iter().any(|x| x % n == p) && Some(p) != poisoned { 1 } else { 0 }).collect();
     // the recorded schedule, then whatever is still missing in canonical order (twice: second passes)
     let mut steps = spec.steps.clone();
@@ -146,6 +156,12 @@ fn run_interleaved(scs: &[scen::Scenario], spec: &Spec, ctx: &Arc<seam::RunCtx>,
         out.log.push(format!("{seq} c{c} p{p} {} -> {}", TASKS[t], if r.is_ok() { "ok".to_string() } else { "error".to_string() }));
         seq += 1;
         done[p][t] = true;
+        if t == 0 && in_place[p] && r.is_ok() {
+            // the in-place conversion will overwrite the generated JSON: keep a copy for the round-trip comparison
+            let m = msgs[p].lock().unwrap_or_else(|e| e.into_inner());
+            saved_generated[p] = m.data().get("document").cloned().unwrap_or(Value::Null);
+            out.count("config.publish_in_place_same_source_and_target", 1);
+        }
         if let Err(e) = r {
             if let Some(h) = e.strip_prefix("HARNESS ") {
                 out.harness_error = Some(h.to_string());
@@ -163,7 +179,8 @@ fn run_interleaved(scs: &[scen::Scenario], spec: &Spec, ctx: &Arc<seam::RunCtx>,
         if Some(p) == poisoned && t == 1 {
             let kind = spec.poison.map(|x| x.1).unwrap_or(0);
             let mut m = msgs[p].lock().unwrap_or_else(|e| e.into_inner());
-            let text = m.data().get("sample_mt").and_then(|v| v.as_str()).unwrap_or("").to_string();
+            let mt_key = if in_place[p] { "document" } else { "sample_mt" };
+            let text = m.data().get(mt_key).and_then(|v| v.as_str()).unwrap_or("").to_string();
             let garbled = match kind % 4 {
                 0 => text.chars().take(text.chars().count() * 3 / 5).collect::<String>(),
                 1 => text.replacen(":20:", ":2Z:", 1),
@@ -171,7 +188,7 @@ fn run_interleaved(scs: &[scen::Scenario], spec: &Spec, ctx: &Arc<seam::RunCtx>,
                 _ => text.replacen("{2:", "{9:", 1),
             };
             if let Some(o) = m.data_mut().as_object_mut() {
-                o.insert("sample_mt".into(), Value::String(garbled));
+                o.insert(mt_key.into(), Value::String(garbled));
             }
             m.invalidate_context_cache();
             out.count("fault.message.published_text_corrupted", 1);
@@ -213,7 +230,15 @@ fn run_interleaved(scs: &[scen::Scenario], spec: &Spec, ctx: &Arc<seam::RunCtx>,
             }
             continue;
         }
-        let d = m.data().clone();
+        let mut d = m.data().clone();
+        if in_place[p] {
+            // present the in-place pipeline's data under the usual names
+            let text = d.get("document").cloned().unwrap_or(Value::Null);
+            if let Some(o) = d.as_object_mut() {
+                o.insert("sample_mt".into(), text);
+                o.insert("sample_json".into(), saved_generated[p].clone());
+            }
+        }
         let v = judge(sc, &d, out);
         texts.push(d.get("sample_mt").and_then(|v| v.as_str()).unwrap_or("").to_string());
         if out.violation.is_none() {
@@ -495,6 +520,7 @@ impl Engine for C15 {
         };
         let (mut more_pipelines, mut callers, mut steps) = (vec![], 0, vec![]);
         let (mut poison, mut second_pass) = (None, vec![]);
+        let mut in_place: Vec<usize> = vec![];
         if path == "interleaved" {
             let n = 2 + wl.below(2);
             for _ in 1..n {
@@ -511,7 +537,17 @@ impl Engine for C15 {
             if wl.chance(1, 3) {
                 second_pass.push(wl.below(n));
             }
+            if wl.chance(1, 3) {
+                in_place.push(wl.below(n));
+            }
         }
+        // the process's local time zone: mostly UTC, sometimes far west or far east of it
+        let tz = match wl.below(8) {
+            0 => Some("<-12>12".to_string()),
+            1 => Some("<+14>-14".to_string()),
+            2 => Some("EST5EDT".to_string()),
+            _ => None,
+        };
         Spec {
             run_seed,
             scenario: sc.rel.clone(),
@@ -525,14 +561,16 @@ impl Engine for C15 {
             poison,
             second_pass,
             diag: wl.chance(1, 3),
+            tz,
+            in_place,
         }
     }
 
     fn execute(env: &Env, spec: &Spec) -> (Outcome, Option<Spec>) {
         let mut out = Outcome::default();
         out.log.push(format!(
-            "run_seed={} engine=pipeline path={} scenario={} entropy={} {}",
-            spec.run_seed, spec.path, spec.scenario, hex(spec.entropy_seed), spec.clock.describe()
+            "run_seed={} engine=pipeline path={} scenario={} entropy={} {} tz={} diag={} in_place={:?}",
+            spec.run_seed, spec.path, spec.scenario, hex(spec.entropy_seed), spec.clock.describe(), spec.tz.as_deref().unwrap_or("UTC"), spec.diag, spec.in_place
         ));
         let Some(sc) = scen::find(&env.scenarios, &spec.scenario).cloned() else {
             out.harness_error = Some(format!("scenario {} not found", spec.scenario));
@@ -557,6 +595,15 @@ impl Engine for C15 {
         }
         let spec_c = spec.clone();
         let diag = spec.diag;
+        // the worker process executes one run at a time, so the process environment is the run's
+        match &spec.tz {
+            Some(tz) => unsafe { std::env::set_var("TZ", tz) },
+            None => unsafe { std::env::set_var("TZ", "UTC0") },
+        }
+        if spec.tz.is_some() {
+            out.count("config.local_time_zone_not_utc", 1);
+        }
+        let mut o2 = { let mut o = o2; o.counters = out.counters.clone(); o };
         let res = on_fresh_thread(move || {
             let _a = seam::attach(&ctx2);
             let _ = std::collections::hash_map::RandomState::new();
@@ -587,7 +634,7 @@ impl Engine for C15 {
         let er = out.counters.get("seam.entropy_calls").copied().unwrap_or(0);
         let cr = out.counters.get("seam.clock_reads").copied().unwrap_or(0);
         out.nontrivial = er + cr > 0;
-        out.shape_digest = fnv_str(&format!("{}|{}|{}|{:?}|{:?}|{:?}|{:?}", spec.path, spec.scenario, spec.clock.class, spec.more_pipelines, spec.steps, spec.poison, spec.second_pass));
+        out.shape_digest = fnv_str(&format!("{}|{}|{}|{:?}|{:?}|{:?}|{:?}", spec.path, spec.scenario, spec.clock.class, spec.more_pipelines, spec.steps, spec.poison, (&spec.second_pass, &spec.in_place, &spec.tz)));
         out.log.push(format!(
             "seam entropy_calls={er} clock_reads={cr} last_read={}",
             seam::fmt_ns(ctx.now())
@@ -638,6 +685,16 @@ impl Engine for C15 {
             s.diag = false;
             v.push(s);
         }
+        if spec.tz.is_some() {
+            let mut s = spec.clone();
+            s.tz = None;
+            v.push(s);
+        }
+        if !spec.in_place.is_empty() {
+            let mut s = spec.clone();
+            s.in_place.clear();
+            v.push(s);
+        }
         if spec.path == "sample" {
             let mut s = spec.clone();
             s.path = "plugin".into();
@@ -651,6 +708,7 @@ impl Engine for C15 {
             s.callers = 0;
             s.poison = None;
             s.second_pass.clear();
+            s.in_place.clear();
             v.push(s);
             if spec.callers > 1 {
                 let mut s = spec.clone();
